@@ -111,6 +111,7 @@ fn magic_ty(s: &Spec, m: &Magic) -> (String, String) {
                 match m.wrap.as_str() {
                     "ast" => format!("::darling::ast::Generics<::darling::ast::GenericParam<{}>>", recv(m.field_recv, &format!("{}::TypeParam", syn), &format!("{}::TypeParam", syn))),
                     "result" => format!("::darling::Result<{}>", base),
+                    "result_ast" => format!("::darling::Result<::darling::ast::Generics<::darling::ast::GenericParam<{}>>>", recv(m.field_recv, &format!("{}::TypeParam", syn), &format!("{}::TypeParam", syn))),
                     "spanned" => format!("::darling::util::SpannedValue<{}>", base),
                     "with_original" => format!("::darling::util::WithOriginal<{}, {}>", base, base),
                     _ => base,
@@ -514,10 +515,14 @@ edition = "2021"
 [workspace]
 
 [dependencies]
-darling = {{ path = "/repo" }}
+darling = {{ path = "/repo", default-features = false }}
 # deliberately NOT named `syn`: emitted code must reach syn through darling's re-exports
 syn_v2 = {{ package = "syn", version = "2.0.15", features = ["full", "extra-traits"] }}
 vmodel = {{ path = "/verif/harness/vmodel" }}
+
+# checked twice: as most crates use darling (default features) and with `--no-default-features`
+[features]
+default = ["darling/suggestions"]
 "#,
         name = name
     )
